@@ -10,11 +10,15 @@ import (
 type Value interface{}
 
 type Obj struct {
-	id   int
-	v    Value
-	typ  types.Type
-	name string
+	id     int
+	v      Value
+	typ    types.Type
+	name   string
+	shared bool // package-level variable, or allocated while package initialisers ran (reachable from one)
 }
+
+// allocShared is true while package initialisers run: everything allocated then is shared state.
+var allocShared bool
 
 // PC is one guarded pointer target: obj == nil means the nil pointer.
 type PC struct {
@@ -56,7 +60,10 @@ type OpaqueV struct{ tag string }
 
 var nobj int
 
-func newObj(v Value, t types.Type) *Obj { nobj++; return &Obj{id: nobj, v: v, typ: t} }
+func newObj(v Value, t types.Type) *Obj {
+	nobj++
+	return &Obj{id: nobj, v: v, typ: t, shared: allocShared}
+}
 
 func samePath(a, b []int) bool {
 	if len(a) != len(b) {
